@@ -12,6 +12,8 @@ import WB.Lemmas.C01Mirror
 import WB.Lemmas.C01Sqrt
 import WB.Lemmas.C01DFT
 import WB.Lemmas.C01Excl
+import WB.Lemmas.C01Herm
+import WB.Lemmas.C01WsDist
 
 namespace WB.C01
 
@@ -132,6 +134,34 @@ theorem placement_is_bijection (mp : Mesh) (h1 : 0 < mp.1) (h2 : 0 < mp.2.1) (h3
   obtain ⟨a, b, c, d⟩ := placeK_ok mp h1 h2 h3 ks slots h
   exact ⟨a, b, by rw [c, length_gridPoints], d⟩
 
+/-! ## remap_XX_R / do_ws_dist -/
+
+/-- `remap_XX_R` (the core of `System_R.do_ws_dist`): an EXISTING real-space matrix element `(R_old, X_ab(R_old))` on any
+    R list is folded onto the mesh box and redistributed over the Wigner-Seitz replicas of the pair (a,b) with their
+    weights.  For every mesh-periodic character — i.e. at every k-point of the mesh — the k-space sum is unchanged:
+    `Σ_{R ∈ new list} χ(R)·X_new(R) = Σ_{R_old} χ(R_old)·X_old(R_old)`; any lattice, mesh, centres, tolerance, old R list
+    (also reaching beyond the mesh, where different old R collide) and data.  Together with
+    `exclude_zeros_preserves_sums` this is the whole of `do_ws_dist`. -/
+theorem ws_dist_preserves_mesh_values {K : Type} [Field K] [CharZero K]
+    (ws : Nat) (G : Gram) (mp : Mesh) (tol : Rat) (cs : List QVec3) (a b : Nat)
+    (h1 : 0 < mp.1) (h2 : 0 < mp.2.1) (h3 : 0 < mp.2.2)
+    (htol : tol ≠ 0) (ha : a < cs.length) (hb : b < cs.length)
+    (χ : Vec3 → K) (hper : MeshPeriodic mp χ) (entries : List (Vec3 × K)) :
+    RtoK χ (iRvecOf ws G mp tol cs) (remapXXR mp (weightOf (selOf ws G mp tol cs a b)) entries)
+      = WB.C02.explicitSum χ entries := by
+  have hsub := selOf_sub_iRvecOf ws G mp tol cs a b ha hb
+  rw [selOf_eq ws G mp tol cs a b ha hb] at hsub ⊢
+  exact RtoK_remapXXR ws G mp h1 h2 h3 (absRat tol) _ (absRat_ne_zero tol htol) _ (nodup_iRvecOf ws G mp tol cs) hsub
+    χ hper entries
+
+/-- non-vacuity: mesh (2,1,1), old entries at R = 0, 2e₁ (collide on the mesh) and e₁, weights of the zero shift:
+    the new matrix is `[X(-1)=½·1000, X(0)=11, X(1)=½·1000]`-like and the Γ-point sum is preserved. -/
+example :
+    let sel := wsSelect 1 ⟨1, 0, 0, 1, 0, 1⟩ (2, 1, 1) (1 / 1000) (0, 0, 0)
+    let entries : List (Vec3 × Rat) := [((0, 0, 0), 1), ((2, 0, 0), 10), ((1, 0, 0), 1000)]
+    [(-1, 0, 0), (0, 0, 0), (1, 0, 0)].map (remapXXR (2, 1, 1) (weightOf sel) entries) = [500, 11, 500] := by
+  decide +kernel
+
 /-! ## exclude_zeros (last step of `do_ws_dist`) -/
 
 /-- `exclude_zeros` keeps exactly the R vectors at which some element of some matrix is big (`abs(x) > tolerance`),
@@ -201,7 +231,7 @@ example : withinTol 1 (25 / 4) 4 = true ∧ withinTol (1 / 2) (25 / 4) 4 = false
 
 /-! ## T4 — X(−R) = X(R)†  (partial) -/
 
-/-- T4 (partial).  Let `c' = (-c) mod mp`.  If the mirror image of every replica selected for shift `s` at `c` is
+/-- T4 (per-class helper, formerly the partial statement).  Let `c' = (-c) mod mp`.  If the mirror image of every replica selected for shift `s` at `c` is
     among the searched replicas of `c'`, and vice versa for shift `-s` at `c'`, then the selection for `-s` at `c'` is
     exactly the mirror image of the selection for `s` at `c`, with the same `Ndegen` — i.e. the weights satisfy
     `w_ba(-R) = w_ab(R)` class by class, which with Hermitian mesh data gives `X(-R) = X(R)†`.
@@ -225,6 +255,52 @@ theorem ws_mirror_partial (ws : Nat) (G : Gram) (mp : Mesh) (tol : Rat) (htol : 
   rw [mem_wsClass, mem_wsClass]
   simp only
   rw [hmem, hlen]
+
+/-- **T4 (full statement).**  Let the mirror hypothesis hold for the (rounded) shift of the pair (a,b) — every selected
+    replica of `s` at every grid point `c`, and of `−s` at the mirror grid point, has its mirror image among the searched
+    replicas (`MirrorInside`; this is exactly the condition the harness evaluates as "mirror image inside the search box").
+    Let the input be Hermitian at every mesh point, `X_ba(q) = conj X_ab(q)`, in any field with an involution `star` and
+    roots of unity `ζ_i` with `conj ζ_i = ζ_i⁻¹` (ℂ), and let the mesh transform be the exact DFT.  Then the real-space
+    matrices that the model's `q_to_R` produces, with the R list, shift classes (`shift_index` look-up of (a,b) and of
+    (b,a)), selections and weights that `set_Rvec` builds, satisfy   `X_ba(−R) = conj X_ab(R)`   for EVERY `R`.
+    (Sum over classes + conjugation of the DFT are proved; `ws_mirror_partial` is the per-class helper.) -/
+theorem hermitian_of_mirror {K : Type} [Field K] [StarRing K] [CharZero K]
+    (ws : Nat) (G : Gram) (mp : Mesh) (tol : Rat) (cs : List QVec3) (a b : Nat)
+    (h1 : 0 < mp.1) (h2 : 0 < mp.2.1) (h3 : 0 < mp.2.2)
+    (htol : tol ≠ 0) (ha : a < cs.length) (hb : b < cs.length)
+    (H : MirrorInside ws G mp (absRat tol) (shiftOf (numDigits tol) cs a b))
+    (ζ : K × K × K) (c1 : star ζ.1 = ζ.1⁻¹) (c2 : star ζ.2.1 = ζ.2.1⁻¹) (c3 : star ζ.2.2 = ζ.2.2⁻¹)
+    (z1 : ζ.1 ^ mp.1 = 1) (z2 : ζ.2.1 ^ mp.2.1 = 1) (z3 : ζ.2.2 ^ mp.2.2 = 1)
+    (slots : List Vec3) (Xab Xba : Nat → K) (hX : ∀ i, Xba i = star (Xab i)) (R : Vec3) :
+    let F := dftBox (fun q c => (WB.C02.boxChar ζ q c)⁻¹) mp
+    let Ninv := (((mp.1 * mp.2.1 * mp.2.2 : Nat) : K))⁻¹
+    qToR F Ninv mp slots (weightOf (selOf ws G mp tol cs b a)) Xba (vneg R)
+      = star (qToR F Ninv mp slots (weightOf (selOf ws G mp tol cs a b)) Xab R) := by
+  intro F Ninv
+  rw [selOf_eq ws G mp tol cs b a hb ha, selOf_eq ws G mp tol cs a b ha hb, shiftOf_swap]
+  apply qToR_hermitian ws G mp h1 h2 h3 (absRat tol) (absRat_ne_zero tol htol) _ H
+  · intro q c
+    rw [star_inv₀, star_boxChar ζ c1 c2 c3, boxChar_vneg]
+  · intro q R'
+    show (WB.C02.boxChar ζ q R')⁻¹ = (WB.C02.boxChar ζ q (vmod R' mp))⁻¹
+    rw [← WB.C02.boxChar_periodic ζ mp h1 h2 h3 z1 z2 z3 q R']
+  · rw [star_inv₀, star_natCast]
+  · exact hX
+
+/-- non-vacuity of `hermitian_of_mirror`: the mirror hypothesis holds, e.g., for the simple cubic lattice, mesh (2,1,1),
+    shift (¼, 0, 0) (search size 1 keeps the kernel evaluation short), and `ζ = (−1, 1, 1)` over ℚ with the trivial
+    involution satisfies `conj ζ = ζ⁻¹`, `ζ_i^{mp_i} = 1`. -/
+example : MirrorInside 1 ⟨1, 0, 0, 1, 0, 1⟩ (2, 1, 1) (1 / 1000) (1 / 4, 0, 0) := by
+  unfold MirrorInside
+  decide +kernel
+
+section
+attribute [local instance] starRingOfComm
+example : star (-1 : ℚ) = (-1 : ℚ)⁻¹ ∧ ((-1 : ℚ)) ^ 2 = 1 := by
+  constructor
+  · rw [star_id_of_comm]; norm_num
+  · norm_num
+end
 
 /-- The hypothesis of T4 cannot be dropped (finding F12).  Shown here by kernel evaluation for search size `ws = 1`
     (3³ searched replicas; the code uses `ws = 3`, where the same happens for centres ≳ 3 mesh periods apart, e.g.
